@@ -92,6 +92,9 @@ impl World {
                 None => {
                     self.ghost.leader_of.insert(c.post.term, n);
                     self.bump("leaders_elected");
+                    if c.pre.persisted < c.pre.last_index {
+                        self.bump("leader_elected_with_unreported_tail");
+                    }
                     {
                         let node = &self.nodes[&n];
                         let mut cnt = 0;
@@ -776,6 +779,15 @@ impl World {
                 rd.entries().len(), rd.entries().first().map(|e| e.index), ue.len(), node.unst.offset);
             return Err(self.violation("C07", "C07.persist_handoff", n, d, "entries_not_unstable_suffix".into()));
         }
+        // ---- "entries to persist are handed out exactly once": ghost of what earlier Readies of this incarnation
+        // handed out (independent of the library's own unstable bookkeeping)
+        *self.stats.entry("chk.C07.persist_once").or_insert(0) += 1;
+        for e in rd.entries() {
+            if node.persist_handed.get(&e.index) == Some(&e.term) {
+                let d = format!("node {n}: entry ({}, term {}) is handed out for persistence a second time (the Ready that carried it was advanced)", e.index, e.term);
+                return Err(self.violation("C07", "C07.persist_handoff", n, d, "entries_handed_out_twice".into()));
+            }
+        }
         // ---- snapshot is the pending one
         let snap_idx = if rd.snapshot().is_empty() { 0 } else { rd.snapshot().get_metadata().index };
         if snap_idx != node.obs.snap_index {
@@ -816,6 +828,15 @@ impl World {
         if let Some(hs) = rd.hs() {
             node.hs_handed = hs.clone();
             node.commit_handed = hs.commit;
+        }
+        if snap_idx != 0 {
+            node.persist_handed.clear();
+        }
+        if let Some(first) = rd.entries().first() {
+            let _ = node.persist_handed.split_off(&first.index);
+            for e in rd.entries() {
+                node.persist_handed.insert(e.index, e.term);
+            }
         }
         Ok(())
     }
